@@ -82,6 +82,67 @@ def session_grid_rules(idx: Index, res: Result, rule: str = "DERIVE"):
     return bs, dicts
 
 
+def keyed_skip_rule(idx: Index, res: Result, rule: str = "SKIPKEY") -> int:
+    """SKIPKEY (round 10): 'settings passed with a step affect exactly the steps from that step onwards'.  In SdRunner.run_scenario_step a
+    setting of the step may be skipped (continue before change_equation / change_points) on the strength of a record that outlives the
+    call (reached from a parameter other than the settings, or from self) only if that record is addressed by everything that identifies
+    the target: the scenario manager *and* the scenario (or it hangs off the scenario object itself).  A record keyed by scenario name
+    alone is shared by same-named scenarios of different managers: the second one's setting is dropped.  Returns the skips examined."""
+    fi = idx.func("BPTK_Py/scenariorunners/sd_runner.py", "SdRunner.run_scenario_step")
+    fn = fi.node
+    ps = params(fn)
+    from ..util import path_atoms
+    assigns = {}
+    for n in ast.walk(fn):
+        if isinstance(n, ast.Assign) and len(n.targets) == 1 and isinstance(n.targets[0], ast.Name):
+            assigns.setdefault(n.targets[0].id, []).append(n.value)
+    def chain(name: str, seen=None):
+        """(roots, keys) of the access paths a local name is bound to"""
+        seen = seen or set()
+        if name in seen:
+            return set(), set()
+        seen = seen | {name}
+        if name not in assigns:
+            return {name}, set()
+        roots, keys = set(), set()
+        for v in assigns[name]:
+            for y in ast.walk(v):
+                if isinstance(y, ast.Subscript):
+                    keys.add(src(y.slice))
+                if isinstance(y, ast.Call) and call_name(y) in ("setdefault", "get") and y.args:
+                    keys.add(src(y.args[0]))
+                if isinstance(y, ast.Name) and isinstance(y.ctx, ast.Load) and y.id != name:
+                    r_, k_ = chain(y.id, seen)
+                    roots |= r_; keys |= k_
+                if isinstance(y, ast.Attribute) and isinstance(y.value, ast.Name) and y.value.id == "self":
+                    roots.add("self." + y.attr)
+        return roots, keys
+    loops = [l for l in ast.walk(fn) if isinstance(l, ast.For) and any(isinstance(c, ast.Call) and call_name(c) in ("change_equation", "change_points")
+                                                                        for b in l.body for c in ast.walk(b))
+             and not any(isinstance(c, ast.Call) and call_name(c) == "start" for b in l.body for c in ast.walk(b))]
+    nskips = 0
+    mgr = ps[3] if len(ps) > 3 else "scenario_manager"
+    for l in loops:
+        for c in [x for b in l.body for x in ast.walk(b) if isinstance(x, (ast.Continue, ast.Break))]:
+            nskips += 1
+            names = {y.id for a_, _t in path_atoms(fn, c) for y in ast.walk(a_) if isinstance(y, ast.Name)}
+            for nm in sorted(names):
+                roots, keys = chain(nm)
+                outliving = {r_ for r_ in roots if (r_ in ps and r_ not in ("self", ps[2], mgr, ps[1])) or r_.startswith("self.")}
+                if not outliving:
+                    continue
+                ok = mgr in keys or any(mgr in k for k in keys)
+                res.check(rule, "skip of a step setting on record '%s' (from %s) is keyed by the scenario manager" % (nm, ", ".join(sorted(outliving))),
+                          ok, fi.loc(c), fi.qual, "continue on %s" % nm,
+                          "run_scenario_step skips applying a setting of this step when the record %s (reached from %s, which outlives the call) "
+                          "says so, but the record is addressed by %s only - not by the scenario manager: two managers with a scenario of the same "
+                          "name share it, and the second one's setting is silently dropped from that step on"
+                          % (nm, ", ".join(sorted(outliving)), sorted(keys)), key="%s/run_scenario_step/%s" % (rule, nm))
+    res.ob(rule, "settings loops of run_scenario_step examined: %d loops, %d skip statements" % (len(loops), nskips), True)
+    res.floor("settings application loops in run_scenario_step", len(loops), 2)
+    return nskips
+
+
 def check_c09(idx: Index, tier: str, res: Result) -> None:
     res.explanation = ("(1) each of session_state starttime/stoptime/dt is data-dependent on the corresponding attribute of the selected "
                        "scenario objects; (2) the clock advance is normalised, logs are keyed by the pre-advance step, settings are applied "
@@ -90,7 +151,8 @@ def check_c09(idx: Index, tier: str, res: Result) -> None:
                        "run_scenarios/run_step/session_results through a serialiser untouched; (6) every session_state key read anywhere is "
                        "written by begin_session.")
     res.rules = ["DERIVE: def-use from scenario attributes to the session run specs", "STEP: ordering in run_step / run_scenario_step",
-                 "SERIES: one series expression for all formats", "PASSTHROUGH: handlers compute nothing", "KEYS: session_state reads vs writes"]
+                 "SERIES: one series expression for all formats", "PASSTHROUGH: handlers compute nothing", "KEYS: session_state reads vs writes",
+                 "SKIPKEY: a step setting is skipped on a record that outlives the call only if the record is keyed by manager and scenario"]
     res.not_decided = ["value equality across channels (numeric)", "HTTP serialisation fidelity of jsonpickle/json for floats"]
     bs, dicts = session_grid_rules(idx, res)
     # the batch run sweeps the model's own grid (start, stop, dt of the model the scenario carries) - the grid the session clock is derived from
@@ -102,6 +164,7 @@ def check_c09(idx: Index, tier: str, res: Result) -> None:
     # one scenario's step settings never reach another scenario of the same step (shared with C06/C07)
     from .scenarios import stale_rule
     stale_rule(idx, res, ("BPTK_Py/scenariorunners/", "BPTK_Py/bptk.py"))
+    keyed_skip_rule(idx, res)
     # POST /run reports what the other channels report for the same settings: no value memoised under earlier settings survives
     from .memo import run_resource_reset_rule
     run_resource_reset_rule(idx, res, "PASSTHROUGH")
